@@ -324,7 +324,7 @@ func TestC04_Deep(t *testing.T) {
 				continue
 			}
 			call := run.Call{API: "compile", Expr: "deep:" + kind + ":" + strconv.Itoa(n)}
-			run.Watch(c, "deep", call)
+			run.WatchAs(c, "deep", "custom:c04-deep", nil, call)
 			msg := c04DeepVerdict(kind, n)
 			if strings.HasPrefix(msg, "fatal error: stack overflow") && kfOpen("stack-overflow-deep-nesting") {
 				c.Exclude("stack-overflow-deep-nesting")
